@@ -94,6 +94,8 @@ type Session struct {
 
 	// sessionStateMu protects isClosed and isInitialized.
 	sessionStateMu sync.RWMutex
+	// closeWG is held by the Close call that does the work
+	closeWG sync.WaitGroup
 	// isClosed is true once Session.Close is finished.
 	isClosed bool
 	// isClosing bool is true once Session.Close is started.
@@ -491,10 +493,14 @@ func (s *Session) Close() {
 	s.sessionStateMu.Lock()
 	if s.isClosing {
 		s.sessionStateMu.Unlock()
+		// another Close is at work (or done): return when the session is closed, not before
+		s.closeWG.Wait()
 		return
 	}
 	s.isClosing = true
+	s.closeWG.Add(1)
 	s.sessionStateMu.Unlock()
+	defer s.closeWG.Done()
 
 	if s.pool != nil {
 		s.pool.Close()
